@@ -48,6 +48,21 @@ def gen(tier, rng):
                 for _ in range(300):
                     tail = bytes(rng.choice(ALPHA) if rng.random() < 0.7 else rng.randrange(256) for _ in range(k))
                     out.append("len.read %s %02x%s" % (m, b0, tail.hex()))
+    # long forms, systematically (added after the mutation run: `len > 0x00FF_FFFF` -> `>=` in the 0x84 arm
+    # survived the random tails): every tail over the boundary alphabet for 81..85, and every value at a
+    # minimal-form boundary (+-1) written with every number of length octets that can hold it
+    import itertools
+    for m in modes:
+        for b0 in (0x81, 0x82, 0x83, 0x84, 0x85):
+            for k in (1, 2, 3, 4) + ((5,) if b0 >= 0x84 else ()):
+                for tail in itertools.product(ALPHA, repeat=k):
+                    out.append("len.read %s %02x%s" % (m, b0, bytes(tail).hex()))
+        for v in sorted({max(0, b + d) for b in (0, 0x7f, 0x80, 0xff, 0x100, 0xffff, 0x10000, 0xffffff, 0x1000000, 0xffffffff)
+                         for d in (-1, 0, 1)}):
+            for k in (1, 2, 3, 4, 5):
+                if v < (1 << (8 * k)):
+                    out.append("len.read %s %02x%s" % (m, 0x80 + k, v.to_bytes(k, "big").hex()))
+                    out.append("len.read %s %02x%s" % (m, 0x80 + k, v.to_bytes(k, "big").hex()[:-2]))
     # whole values: content present, so success shows that exactly the length octets were consumed
     out.append("len.read ber -")
     for m in modes:
